@@ -350,7 +350,22 @@ def exact_threshold(rng, rule='cfer', undeclared=False):
     return plain(rng)
 
 
+def slow_cycle(rng, undeclared=False):
+    """K candidates elected together whose ballots rank all K of them cyclically before one of h hopefuls competing for the last
+    seat: the surplus circulates among the elected and shrinks by a few percent per Meek iteration (hundreds of iterations in a
+    round for K around 10) -- exercises iteration limits and the convergence tests"""
+    K = rng.randint(5, 11); h = rng.randint(2, 3); base = rng.randint(20, 40)
+    n = K + h
+    lines = []
+    for i in range(K):
+        lines.append((base + i, [(i + j) % K + 1 for j in range(K)] + [K + 1 + (i % h)]))
+    for j in range(h):
+        lines.append((base - 10 - j, [K + 1 + j]))
+    return _finish(rng, n, K + 1, [], [], lines)
+
+
 FAMILIES = {
+    'slow_cycle': slow_cycle,
     'plain': plain, 'on_quota': on_quota, 'symmetric': symmetric, 'few_supported': few_supported,
     'chains': chains, 'sure_losers': sure_losers, 'big': big, 'crossover': crossover, 'blocs': blocs, 'threeway': threeway, 'exact_threshold': exact_threshold,
 }
